@@ -48,9 +48,11 @@ Init4 == \/ mode = "seq" /\ stage = 0 /\ toks = <<>> /\ fam = "none" /\ c = X(1)
             /\ \E item \in 0..8, f \in JFields, m \in JMuts : toks = <<ToString(item), f, m>>
          \/ mode = "edit" /\ stage = 1 /\ fam = "none" /\ c \in EditPool /\ toks = Render(c, 0).t
          \* one construct nested n times: within the parser's documented depth limit every later pass must cope with the tree,
-         \* beyond it the input must be refused with an error (the harness expands <<construct, n>> into the text)
+         \* beyond it the input must be refused with an error (the harness expands <<construct, n>> into the text).
+         \* Nested tuples / enumerations / power sets have typifications as deep as the text: 300 levels keep the quadratic string work
+         \* of the later passes within seconds under the sanitizers
          \/ /\ mode = "deep" /\ stage = 0 /\ fam = "none" /\ c = X(1)
-            /\ \E op \in {"BOOLEAN", "PAREN", "NOT", "ENUM", "SMALLPR", "TUPLE", "REF", "QUANT"} : \E n \in {1500, 2500, IF op \in {"SMALLPR", "TUPLE", "QUANT"} THEN 30000 ELSE 150000} : toks = <<op, ToString(n)>>
+            /\ \E op \in {"BOOLEAN", "PAREN", "NOT", "ENUM", "SMALLPR", "TUPLE", "REF", "QUANT"} : \E n \in {IF op \in {"TUPLE", "ENUM", "BOOLEAN"} THEN 300 ELSE 1500, 2500, IF op \in {"SMALLPR", "TUPLE", "QUANT"} THEN 30000 ELSE IF op = "ENUM" THEN 60000 ELSE 150000} : toks = <<op, ToString(n)>>
 Next4 ==
   \/ /\ mode = "seq" /\ Len(toks) < MaxSeq /\ \E s \in Sigma : toks' = Append(toks, s)
      /\ UNCHANGED <<mode, stage, fam, c>>
